@@ -202,10 +202,10 @@ func TestC12(t *testing.T) {
 	n := cfg.N(240, 8000)
 	var ops int64
 	for i := 0; i < n; i++ {
-		if !cfg.Mine(i) {
+		seed := cfg.CaseSeed("C12", i)
+		if !cfg.Want(i, seed) {
 			continue
 		}
-		seed := cfg.CaseSeed("C12", i)
 		rig.SetWatchdogContext(fmt.Sprintf("C12 case %d", i))
 		rig.RunCase(t, seed, rig.Opts{Tick: time.Microsecond}, func(e *rig.Env) {
 			rr := e.Rand
@@ -453,10 +453,10 @@ func TestC12race(t *testing.T) {
 	n := cfg.N(160, 4000)
 	var races int64
 	for i := 0; i < n; i++ {
-		if !cfg.Mine(i) {
+		seed := cfg.CaseSeed("C12race", i)
+		if !cfg.Want(i, seed) {
 			continue
 		}
-		seed := cfg.CaseSeed("C12race", i)
 		rig.RunCase(t, seed, rig.Opts{}, func(e *rig.Env) {
 			rr := e.Rand
 			lr := &lockedRand{r: rand.New(rand.NewSource(seed ^ 0x7e57))}
